@@ -428,7 +428,9 @@ Scenario(st, i) ==
      bc |-> bcp,
      ins |-> b.ins, trim |-> b.trim, rel |-> b.rel,
      need |-> [m \in {1, 2} |-> MaxOf({0} \cup { bcp[k][3] : k \in { j \in DOMAIN bcp : bcp[j][1] = m } })],
-     cuts |-> cuts \cup {b.ins[1], b.ins[2]}]
+     cuts |-> cuts \cup {b.ins[1], b.ins[2]},
+     \* base/quality tags that EVERY branch of the strategy sets: an already demultiplexed input header may carry stale values of them
+     settags |-> { t \in BaseTags : \A j \in DOMAIN L[st] : t \in DOMAIN L[st][j].tags \cup DOMAIN L[st][j].qt }]
 EmitScenarios(dummy) == \A st \in Strategies : \A i \in DOMAIN L[st] : PrintT("@@SCENARIO " \o ToJson(Scenario(st, i)))
 GenInit == EmitScenarios(0) /\ s = "ILLU" /\ bi = 1 /\ reads = <<>> /\ pc = "gen" /\ loc = NoLoc /\ recs = <<>>
 GenNext == FALSE /\ UNCHANGED vars
